@@ -22,7 +22,7 @@ ASSUMPTIONS = ["scripted peer built on vlib/refproto (independent encoder of rep
 
 _SHIM = [False]
 
-APIS = ["md", "fc", "dr", "av", "hb", "pr0"]     # pr0: Produce with acks=0 - written, drained, never answered
+APIS = ["md", "fc", "dr", "av", "hb", "pr0", "sh"]     # pr0: Produce with acks=0 - written, drained, never answered
 
 
 def setup():
@@ -44,6 +44,9 @@ def _build_request(kind):
         return DeleteRecordsRequest([("t", [(0, 1)])], 1000, tags={})
     if kind == "av":
         return ApiVersionRequest()
+    if kind == "sh":
+        from aiokafka.protocol.admin import SaslHandShakeRequest
+        return SaslHandShakeRequest("PLAIN")
     if kind == "pr0":
         from aiokafka.protocol.produce import ProduceRequest
         return ProduceRequest(transactional_id=None, required_acks=0, timeout=100, topics=[("t", [(0, b"")])])
@@ -60,16 +63,22 @@ def _reply_body(key, ver, marker, tags=True):
         return {"throttle_time_ms": marker, "topics": [], "_tags": [{}, {0: b"ab"}, {5: b"", 9: b"xyz"}][marker % 3] if tags else {}}
     if key == 18:
         return {"error": 0, "api_versions": [], "throttle": marker}
+    if key == 17:
+        # no throttle field to carry the marker: it travels as a mechanism name (the body ends in a string)
+        return {"error": 0, "mechanisms": ["PLAIN", "m%d" % marker]}
     if key == 12:
         return {"throttle": marker, "error": 0}
     raise KeyError(key)
 
 
 def _marker_of(resp):
+    if hasattr(resp, "enabled_mechanisms"):
+        ms = [m for m in resp.enabled_mechanisms if m.startswith("m") and m[1:].isdigit()]
+        return int(ms[0][1:]) if len(ms) == 1 and list(resp.enabled_mechanisms)[:1] == ["PLAIN"] else None
     return getattr(resp, "throttle_time_ms", None)
 
 
-VERSIONS = {3: (0, 5), 10: (0, 1), 21: (0, 2), 18: (0, 2), 12: (0, 1), 0: (0, 7)}
+VERSIONS = {3: (0, 5), 10: (0, 1), 21: (0, 2), 18: (0, 2), 12: (0, 1), 0: (0, 7), 17: (0, 1)}
 
 
 class Peer:
